@@ -143,12 +143,16 @@ def _propspec(rng, kind, ids, via):
             spec["tzid2"] = rng.choice(others)       # TZID=a,b: a list of ids on one value
     else:
         spec["shape"] = "single"
+        if rng.random() < 0.12:
+            spec["asdate"] = True      # the all-day export style: DTSTART;VALUE=DATE;TZID=...:20200101
     # how an API client attaches the zone: a tz object (IANA ids only) or an explicit TZID parameter
     if via == "api":
         if tzid in IANA and rng.random() < 0.7 and spec["shape"] != "xparam":
             spec["tzkind"] = rng.choice(["zi", "pytz"])
         else:
             spec["tzkind"] = "param"
+    if spec.get("asdate"):
+        spec["tzkind"] = "param"
     return spec
 
 
@@ -370,6 +374,8 @@ def prop_line(p):
         return f"{p['name']}{par}:" + ",".join(_fmt(w) for w in p["vals"])
     if p["shape"] == "period":
         return f"{p['name']}{par}:" + ",".join(_fmt(w) + "/" + _fmt(_end(w)) for w in p["vals"])
+    if p.get("asdate"):
+        return f"{p['name']};VALUE=DATE{par}:{_fmt(p['vals'][0])[:8]}"
     return f"{p['name']}{par}:{_fmt(p['vals'][0])}"
 
 
@@ -400,6 +406,9 @@ def api_add(comp, p):
     elif p["shape"] == "period":
         for w in p["vals"]:
             comp.add(p["name"], (dt(w), dt(_end(w))), parameters=params)
+    elif p.get("asdate"):
+        from datetime import date as _date
+        comp.add(p["name"], _date(*p["vals"][0][:3]), parameters=params)
     else:
         comp.add(p["name"], dt(p["vals"][0]), parameters=params)
 
